@@ -44,14 +44,21 @@ def validate_batch(runs):
     """Replay every run through the extracted Sys.step in one driver process.
     Returns {run index: (event index, event line, context, dump)} for rejected runs."""
     lines, spans, trs = [], [], []
-    for r in runs:
-        tr, ls = translate.translate(r.trace, r.manager._config)
+    untranslated = {}
+    for i, r in enumerate(runs):
+        try:
+            tr, ls = translate.translate(r.trace, getattr(r, 'config', None) or r.manager._config)
+        except Exception as e:      # noqa: the log no longer has the shape the translator knows
+            untranslated[i] = (0, f'<untranslatable: {type(e).__name__}: {e}>', [], 'the log->event translator could not interpret this run')
+            tr, ls = None, []
         spans.append((len(lines), len(ls)))
         lines += ls
         trs.append((tr, ls))
-    out = common.run_model('sys', lines)
-    rej = {}
+    out = common.run_model('sys', lines) if lines else []
+    rej = dict(untranslated)
     for i, (start, n) in enumerate(spans):
+        if i in untranslated:
+            continue
         chunk = out[start:start + n]
         if 'REJECT' in chunk:
             j = chunk.index('REJECT')
